@@ -108,6 +108,11 @@ func (c *Decoder) decodeBackendProbeObject() (*ast.BackendProbeObject, error) {
 	var err error
 	probe := &ast.BackendProbeObject{}
 
+	if err := c.enter(); err != nil {
+		return nil, err
+	}
+	defer c.leave()
+
 	for {
 		frame := c.nextFrame()
 		switch frame.Type() {
@@ -122,6 +127,17 @@ func (c *Decoder) decodeBackendProbeObject() (*ast.BackendProbeObject, error) {
 				return nil, errors.WithStack(err)
 			}
 			prop.Value, err = c.decodeExpression(c.nextFrame())
+			if err != nil {
+				return nil, errors.WithStack(err)
+			}
+			probe.Values = append(probe.Values, prop)
+		case BACKEND_PROBE:
+			prop := &ast.BackendProperty{}
+			prop.Key, err = c.decodeIdent(c.nextFrame())
+			if err != nil {
+				return nil, errors.WithStack(err)
+			}
+			prop.Value, err = c.decodeBackendProbeObject()
 			if err != nil {
 				return nil, errors.WithStack(err)
 			}
@@ -215,9 +231,13 @@ func (c *Decoder) decodePenaltyboxDeclaration() (*ast.PenaltyboxDeclaration, err
 		return nil, errors.WithStack(err)
 	}
 
+	block, err := c.decodeOptionalBlockStatement()
+	if err != nil {
+		return nil, errors.WithStack(err)
+	}
 	return &ast.PenaltyboxDeclaration{
 		Name:  name,
-		Block: &ast.BlockStatement{},
+		Block: block,
 	}, nil
 }
 
@@ -227,10 +247,23 @@ func (c *Decoder) decodeRatecounterDeclaration() (*ast.RatecounterDeclaration, e
 		return nil, errors.WithStack(err)
 	}
 
+	block, err := c.decodeOptionalBlockStatement()
+	if err != nil {
+		return nil, errors.WithStack(err)
+	}
 	return &ast.RatecounterDeclaration{
 		Name:  name,
-		Block: &ast.BlockStatement{},
+		Block: block,
 	}, nil
+}
+
+// The block of penaltybox and ratecounter is encoded only when it has statements
+func (c *Decoder) decodeOptionalBlockStatement() (*ast.BlockStatement, error) {
+	if !c.peekFrameIs(BLOCK_STATEMENT) {
+		return &ast.BlockStatement{}, nil
+	}
+	c.nextFrame() // point to BLOCK_STATEMENT frame
+	return c.decodeBlockStatement()
 }
 
 func (c *Decoder) decodeSubroutineDeclaration() (*ast.SubroutineDeclaration, error) {
